@@ -6,6 +6,18 @@ problem of the same spec (in a random setup phase) and `get_val` is compared, va
 the value the case itself holds (which C17 ties to the live snapshot).  When the case holds a complete,
 settled state (all independent variables present, recorded at the end of a model run) a following
 `run_model` must reproduce every recorded output.
+
+Second stratum ('override', omv/gen/c19_override.py): models in which components / groups / IndepVarComps, at the
+root or nested, override `System.load_case` (the documented hook) and either restore their own variables, do
+nothing, or write recorded+1000 into their outputs - so the harness knows what each of them leaves behind - next
+to systems whose names are string prefixes / extensions of the overriding ones (a, a2, a_b, ab, a.a, a2.a ...),
+with promoted names that begin like other systems' pathnames.  The case (Case from a problem / driver / root-system
+recorder, or the documented dict of list_inputs/list_outputs) is loaded into a fresh problem, into the moved
+recording problem itself, or into a slightly different model (a system renamed / dropped / added): every recorded
+variable of a non-overriding system that the model has must hold the recorded value, every overriding subsystem
+must have been handed the case (outermost first) and its variables hold what it wrote, every case variable the
+model lacks must be reported by a warning without disturbing the others, and a following run_model reproduces
+the recorded outputs.
 """
 import random
 
@@ -20,7 +32,15 @@ RULE = ('scenario = generated model (units, src_indices, auto-IVC/IVC, shared pr
         'groups, converged NLBGS/Newton cycles) x driver {run_model, Driver, DOE, SLSQP} x recorders on problem/'
         'driver/systems with random or default recording options; up to 6 cases per recorder file picked at random '
         'history points; fresh problem in phase {setup, final_setup, after run_model}; distinct = distinct (model '
-        'summary, case kind, phase); non-trivial = at least one recorded variable was compared')
+        'summary, case kind, phase); non-trivial = at least one recorded variable was compared.  Stratum override: '
+        'tree of <= 6 components in groups of depth <= 2 with system names drawn from families of mutual string '
+        'prefixes (a/a2/a_b/ab/aa, ph/ph0/ph01 ...), random promotion, variable names beginning like system names, '
+        'src_indices, optional IndepVarComp; 1-3 systems {component, group, IndepVarComp} override load_case with '
+        'behaviour {restore-self, nothing, recorded+1000 on outputs}; case from {problem, driver, root system '
+        'recorder, dict of list_inputs/list_outputs} x {all, no inputs, include/exclude pattern}; loaded into '
+        '{fresh problem x phase, the moved recording problem, variant model: system renamed / group renamed / '
+        'component dropped / component added}; distinct = distinct (system tree with names, override modes, '
+        'source, target, phase)')
 ASSUMPTIONS = [
     'a recorded input is judged only if it is consistent with its recorded source output (cases taken in the middle of '
     'a run can hold an input that is stale w.r.t. the recorded value of its source; no load can satisfy both)',
@@ -34,12 +54,31 @@ ASSUMPTIONS = [
     'element: load_case writes connected inputs through to their source, so a stale input of a component that was '
     'not executed in the recorded run cannot be restored together with the others',
     'solver cases are not used (mid-iteration states)',
+    'override stratum: a variable belongs to an overriding subsystem iff its ABSOLUTE name lies under that '
+    'subsystem\'s pathname; such variables are expected to hold what the chain of overriding owners (called outermost '
+    'first) wrote: recorded (restore-self), recorded+1000 (marker, outputs only), or the value before the load '
+    '(nothing); outputs left untouched or marked are judged only when no connected input could be written through '
+    'to them afterwards; inputs fed by a marked output and inputs of overriding subsystems that do not restore them '
+    'are not judged',
+    'override stratum: outputs are identified by their promoted name, inputs by their absolute name (that is how a '
+    'case names them); an independent value recorded under a promoted input name is expected in the model\'s '
+    'variable of that promoted name when none of the inputs behind it belongs to an overriding subsystem',
+    'override stratum: run_model reproduction is judged (exactly; the models are acyclic and unit-free) only when '
+    'every independent variable of the target model is restored by the rules above',
+    'override stratum: a relative name that begins with the overriding system\'s own pathname + "." (system b '
+    'holding b.b...) is passed to System.set_val as an absolute name (System.set_val/get_val resolve such a '
+    'relative name as absolute; that is outside this property)',
 ]
-MIN_JUDGED = {'quick': 60, 'thorough': 1200}
+MIN_JUDGED = {'quick': 200, 'thorough': 4000}
 REQUIRED_COUNTERS = ['obs:cases_loaded', 'obs:inputs_compared', 'obs:outputs_compared', 'obs:rerun_judged',
                      'obs:phase:setup', 'obs:phase:final_setup', 'obs:phase:run_model', 'obs:case_kind:driver',
                      'obs:case_kind:problem', 'obs:case_kind:system', 'obs:discrete_compared',
-                     'obs:inputs_with_unit_conversion', 'obs:inputs_with_src_indices']
+                     'obs:inputs_with_unit_conversion', 'obs:inputs_with_src_indices',
+                     'obs:ov:cases_loaded', 'obs:ov:lookalike_vars_compared', 'obs:ov:override_called',
+                     'obs:ov:override_owned_vars_compared', 'obs:ov:rerun_judged', 'obs:ov:missing_var_warned',
+                     'obs:ov:lookalike:name-extends-overrider-pathname',
+                     'obs:ov:lookalike:promoted-name-extends-overrider-pathname',
+                     'obs:ov:source:dict', 'obs:ov:target:same', 'obs:ov:target:fresh']
 SHARD_TIMEOUT = {'quick': 900, 'thorough': 3000}
 
 UNIT_FACTOR = {None: 1.0, 'm': 1.0, 'cm': 0.01, 'km': 1000.0, 's': 1.0, 'ms': 0.001, 'N': 1.0, 'kN': 1000.0}
@@ -410,15 +449,335 @@ def _show(v):
         return repr(v)
 
 
+# ------------------------------------------------------------------------------------------------------------
+# stratum 'override': subsystems that override System.load_case, next to systems with look-alike names
+# ------------------------------------------------------------------------------------------------------------
+OV_PATTERNS = [{'excludes': ['*b']}, {'excludes': ['*_i*']}, {'includes': ['*a']}, {'excludes': ['*_o*a']}]
+
+
+def make_ov_spec(seed):
+    from omv.gen import c19_override as O
+    rng = random.Random((seed << 4) ^ 0x19C19)
+    model = O.gen_model(rng)
+    spec = {'stratum': 'override', 'seed': seed, 'model': model,
+            'vals_rec': O.gen_indep_vals(rng, model), 'vals_other': O.gen_indep_vals(rng, model),
+            'source': rng.choice(['problem', 'problem', 'driver', 'system', 'dict']),
+            'record': rng.choice(['plain', 'plain', 'plain', 'noinputs', 'filtered']),
+            'pattern': rng.choice(OV_PATTERNS),
+            'target': rng.choice(['fresh', 'fresh', 'same', 'variant', 'variant']),
+            'phase': rng.choice(['setup', 'final_setup', 'run_model'])}
+    if spec['target'] == 'variant':
+        spec['variant'], spec['variant_kind'] = O.variant(rng, model)
+    if spec['target'] == 'same' and spec['source'] in ('driver', 'system'):
+        spec['source'] = 'problem'
+    return spec
+
+
+def _ov_record(spec):
+    """run the source model at vals_rec and return (case, built, reader or None)."""
+    import openmdao.api as om
+    from omv.gen import c19_override as O
+    b = O.build(spec['model'])
+    prob = b['prob']
+    src = spec['source']
+    req = {'problem': prob, 'driver': prob.driver, 'system': prob.model}.get(src)
+    if req is not None:
+        ro = req.recording_options
+        ro['record_inputs'] = spec['record'] != 'noinputs'
+        ro['record_outputs'] = True
+        ro['includes'] = ['*']
+        ro['excludes'] = []
+        if spec['record'] == 'filtered':
+            for k, v in spec['pattern'].items():
+                ro[k] = list(v)
+        req.add_recorder(om.SqliteRecorder('./ov.sql', record_viewer_data=False))
+    prob.setup()
+    O.set_indeps(b, spec['vals_rec'])
+    if src == 'driver':
+        prob.run_driver()
+    else:
+        prob.run_model()
+    if src == 'problem':
+        prob.record('pt')
+    if src == 'dict':
+        li = prob.model.list_inputs(prom_name=True, return_format='dict', out_stream=None)
+        lo = prob.model.list_outputs(prom_name=True, return_format='dict', out_stream=None)
+        if spec['record'] == 'noinputs':
+            li = {}
+        case = {'inputs': {a: dict(m, val=np.array(m['val'], copy=True)) for a, m in li.items()},
+                'outputs': {a: dict(m, val=np.array(m['val'], copy=True)) for a, m in lo.items()}}
+        if spec['record'] == 'noinputs':
+            del case['inputs']
+        return case, b, None
+    prob.cleanup()
+    cr = om.CaseReader('./ov.sql')
+    if src == 'problem':
+        case = cr.get_case('pt')
+    else:
+        lst = cr.list_cases('driver' if src == 'driver' else 'root', recurse=False, out_stream=None)
+        case = cr.get_case(lst[-1])
+    return case, b, cr
+
+
+def _ov_fold(owners, io):
+    """what the chain of overriding owners (outermost first = call order) leaves in a variable of theirs"""
+    st = 'pre'
+    for _, mode in owners:
+        if mode == 'self':
+            st = 'rec'
+        elif mode == 'marker' and io == 'output':
+            st = 'mark'
+    return st
+
+
+def _ov_relation(name, prom, ov):
+    """how the (absolute, root-promoted) name of a variable of a non-overriding system relates to the pathnames of
+    the overriding systems"""
+    rel = 'unrelated'
+    for p in ov:
+        if name.startswith(p + '.'):
+            return 'inside'
+        if prom.startswith(p + '.'):
+            rel = 'promoted-name-looks-inside-overrider'
+        elif name.startswith(p) and rel == 'unrelated':
+            rel = 'name-extends-overrider-pathname'
+        elif prom.startswith(p) and rel == 'unrelated':
+            rel = 'promoted-name-extends-overrider-pathname'
+    return rel
+
+
+def judge_ov(spec, acc):
+    import warnings
+    from omv.gen import c19_override as O
+    case0 = {'spec': spec}
+    bad = [False]
+
+    def viol(key, what):
+        acc.viol(key, what, case0, new_case=not bad[0])
+        bad[0] = True
+
+    try:
+        case, bsrc, cr = _ov_record(spec)
+    except Exception as ex:  # noqa
+        import traceback
+        acc.viol('ov:scenario-raises:%s' % type(ex).__name__, '%s: %s' % (type(ex).__name__, str(ex)[:300]), case0,
+                 detail=traceback.format_exc())
+        return
+    src_model = spec['model']
+    tgt_model = spec['variant'] if spec['target'] == 'variant' else src_model
+    try:
+        if spec['target'] == 'same':
+            bt = bsrc
+            O.set_indeps(bt, spec['vals_other'])
+            bt['prob'].run_model()
+        else:
+            bt = O.build(tgt_model)
+            bt['prob'].setup()
+            tind = set(nm for nm, _, _, _ in O.indeps(tgt_model))
+            O.set_indeps(bt, {k: v for k, v in spec['vals_other'].items() if k in tind})
+            if spec['phase'] == 'final_setup':
+                bt['prob'].final_setup()
+            elif spec['phase'] == 'run_model':
+                bt['prob'].run_model()
+    except Exception as ex:  # noqa
+        acc.skip('ov:target-problem-failed:%s' % type(ex).__name__)
+        return
+    prob = bt['prob']
+    VS, VT = bsrc['V'], bt['V']
+    ov = O.overriders(tgt_model)
+    is_dict = isinstance(case, dict)
+    rin, rout = O.case_vars(case)
+    okeys = set() if is_dict else (set(case.outputs.keys()) if case.outputs is not None else set())
+    before = {}
+    for a in VT:
+        before[a] = np.array(prob.get_val(a), copy=True)
+    del prob._omv_log[:]
+    with warnings.catch_warnings(record=True) as wlist:
+        warnings.simplefilter('always')
+        try:
+            prob.load_case(case)
+        except Exception as ex:  # noqa
+            import traceback
+            tb = traceback.format_exc()
+            where = ''
+            for line in tb.splitlines():
+                if '/openmdao/' in line and 'File' in line:
+                    where = line.strip().split('/')[-1].split('"')[0] + ':' + line.strip().split(' in ')[-1]
+            viol('ov:load_case:raises:%s@%s:%s:%s' % (type(ex).__name__, where, spec['source'], spec['target']),
+                 'load_case raised %s: %s' % (type(ex).__name__, str(ex)[:200]))
+            prob.cleanup()
+            return
+    wtext = [str(w.message) for w in wlist]
+    acc.count('obs:ov:cases_loaded')
+    acc.count('obs:ov:source:' + spec['source'])
+    acc.count('obs:ov:target:' + spec['target'] + (':' + spec['variant_kind'] if spec['target'] == 'variant' else ''))
+    for p, mode in ov.items():
+        acc.count('obs:ov:mode:' + mode + ':' + bt['sys'][p].__class__.__name__)
+    # ---- the overriding systems were handed the case, outermost first
+    called = [p for p, cid in prob._omv_log if cid == id(case)]
+    for p in ov:
+        if p not in called:
+            viol('ov:override-not-called', 'load_case of overriding subsystem %r was not called with the case (log %r)'
+                 % (p, prob._omv_log))
+        else:
+            acc.count('obs:ov:override_called')
+    first = [called.index(p) for p in sorted(ov) if p in called]
+    if first != sorted(first):
+        viol('ov:override-call-order', 'overriding subsystems were not called outermost first: %r' % (called,))
+    ncomp = 0
+    form = 'dict' if is_dict else 'case'
+
+    def compare(a, want, kind, prom):
+        """kind: output | input | indep"""
+        nonlocal ncomp
+        owners = O.owners(tgt_model, a)
+        rel = _ov_relation(a, prom, ov)
+        try:
+            gv = prob.get_val(prom if kind == 'indep' else a)
+        except Exception as ex:  # noqa
+            viol('ov:get_val-after-load:raises:%s' % type(ex).__name__, 'get_val(%r): %s' % (a, str(ex)[:200]))
+            return
+        ncomp += 1
+        if not owners:
+            acc.count('obs:ov:nonoverride_vars_compared')
+            if rel != 'unrelated':
+                acc.count('obs:ov:lookalike_vars_compared')
+                acc.count('obs:ov:lookalike:' + rel)
+        else:
+            acc.count('obs:ov:override_owned_vars_compared')
+        if not _eq(gv, want):
+            how = 'not-restored' if _eq(gv, before[a]) else 'wrong-value'
+            if owners:
+                key = 'ov:override-owned:%s:%s:%s' % (kind, how, '>'.join(m for _, m in owners))
+            else:
+                key = 'ov:load_case:%s:%s:%s:%s' % (rel, kind, how, form)
+            viol(key, 'after load_case [%s -> %s, %s] get_val(%r)=%s, expected %s (before the load: %s; overriding '
+                 'subsystems %r)' % (spec['source'], spec['target'], spec['phase'], prom if kind == 'indep' else a,
+                                     _show(gv), _show(want), _show(before[a]), ov))
+
+    consumers = {}
+    for a, m in VT.items():
+        if m['io'] == 'input' and m['src']:
+            consumers.setdefault(m['src'], []).append(a)
+    # ---- outputs: a case names them by their promoted name
+    prom2out = {m['prom']['']: a for a, m in VT.items() if m['io'] == 'output'}
+    out_missing = []
+    tgt_of = {}
+    for a0, rv in rout.items():
+        if a0.startswith('_auto_ivc.'):
+            continue
+        pn = case['outputs'][a0]['prom_name'] if is_dict else (VS[a0]['prom'][''] if a0 in VS else None)
+        a = prom2out.get(pn)
+        if a is None:
+            out_missing.append((a0, pn))
+            continue
+        tgt_of[a0] = a
+        own = O.owners(tgt_model, a)
+        if own and a != a0:
+            # the harness' overriding subsystems look their variables up by absolute name: a renamed one finds nothing
+            acc.count('obs:ov:vars_of_renamed_override_not_judged')
+            continue
+        st = _ov_fold(own, 'output') if own else 'rec'
+        cons = consumers.get(a, [])
+        if st == 'rec':
+            compare(a, rv, 'output', pn)
+        elif st == 'mark' and not any(mode == 'self' for b in cons for _, mode in O.owners(tgt_model, b)):
+            # (an input that another overriding subsystem restores itself is written through to this output later)
+            compare(a, np.asarray(rv, dtype=float) + O.MARK, 'output', pn)
+        elif st == 'pre' and not cons:
+            compare(a, before[a], 'output', pn)       # left to a subsystem that does not touch it
+        else:
+            acc.count('obs:ov:deferred_outputs_with_consumers_not_judged')
+    # ---- independent values recorded under the promoted name of the inputs they feed
+    restored = set()
+    tgt_ind = O.indeps(tgt_model)
+    src_ind = set(P for P, _, _, is_ivc in O.indeps(src_model) if not is_ivc)
+    for P, a, size, is_ivc in tgt_ind:
+        if is_ivc:
+            own = O.owners(tgt_model, a)
+            if a in rout and (not own or _ov_fold(own, 'output') == 'rec'):
+                restored.add(P)
+            continue
+        ins_P = [b for b, m in VT.items() if m['io'] == 'input' and m['prom'][''] == P]
+        if P in okeys and P in src_ind and not any(O.owners(tgt_model, b) for b in ins_P):
+            compare(a, case.outputs[P], 'indep', P)
+            restored.add(P)
+        if any(b in rin and (not O.owners(tgt_model, b) or _ov_fold(O.owners(tgt_model, b), 'input') == 'rec')
+               for b in ins_P):
+            restored.add(P)
+    # ---- inputs
+    for a, rv in rin.items():
+        if a not in VT:
+            continue
+        m = VT[a]
+        own = O.owners(tgt_model, a)
+        if m['src'] and any(mode == 'marker' for _, mode in O.owners(tgt_model, m['src'])):
+            acc.count('obs:ov:inputs_fed_by_marker_override_not_judged')
+            continue
+        if own and _ov_fold(own, 'input') != 'rec':
+            acc.count('obs:ov:inputs_of_nonrestoring_override_not_judged')
+            continue
+        compare(a, rv, 'input', m['prom'][''])
+    # ---- variables of the case that the model does not have: reported, and no obstacle for the others
+    missing = [(a, a) for a in rin if a not in VT] + out_missing
+    if not is_dict:
+        tgt_in = set(m['prom'][''] for m in VT.values() if m['io'] == 'input')
+        missing += [('_auto_ivc:' + P, P) for P in okeys if P in src_ind and P not in tgt_in]
+    for a, shown in missing:
+        if any(a.startswith(p + '.') or shown.startswith(p + '.') for p in ov):
+            continue        # left to an overriding subsystem
+        if any("'%s'" % shown in w and 'not found in the model' in w for w in wtext):
+            acc.count('obs:ov:missing_var_warned')
+        else:
+            viol('ov:missing-variable-not-reported:%s' % ('input' if a in rin else 'output'),
+                 'case variable %r (%r) is not in the model and no warning names it; warnings: %r'
+                 % (a, shown, wtext[:4]))
+    # ---- re-run
+    if bad[0]:
+        acc.count('obs:ov:rerun_skipped:load-already-wrong')
+    elif not all(P in restored for P, _, _, _ in tgt_ind):
+        acc.count('obs:ov:rerun_skipped:indeps-not-all-restored')
+    else:
+        try:
+            prob.run_model()
+        except Exception as ex:  # noqa
+            viol('ov:rerun:raises:%s' % type(ex).__name__, 'run_model after load_case: %s' % str(ex)[:200])
+        else:
+            acc.count('obs:ov:rerun_judged')
+            for a0, rv in rout.items():
+                if a0 in tgt_of:
+                    a = tgt_of[a0]
+                    ncomp += 1
+                    gv = prob.get_val(a)
+                    if not _eq(gv, rv):
+                        viol('ov:rerun:output-differs:' + form,
+                             'run_model after load_case gives %r=%s, recorded %s' % (a, _show(gv), _show(rv)))
+                        break
+    prob.cleanup()
+    if bt is not bsrc:
+        bsrc['prob'].cleanup()
+    if ncomp == 0:
+        acc.skip('ov:case-holds-no-variables')
+        return
+    if not bad[0]:
+        acc.ok(fingerprint(['ov', O.summary(tgt_model), spec['source'], spec['record'], spec['target'], spec['phase'],
+                            spec.get('variant_kind')]),
+               sample=case0 if spec['seed'] % 97 == 0 else None)
+
+
 def shards(tier, seed):
     if tier == 'quick':
         n, per = 16, 4
     else:
         n, per = 48, 24
-    return [{'base': seed * 1000003 + 500000 + k * per, 'n': per} for k in range(n)]
+    ov = 12 if tier == 'quick' else 120
+    return [{'base': seed * 1000003 + 500000 + k * per, 'n': per,
+             'ov_base': seed * 1000003 + 700000 + k * ov, 'ov_n': ov} for k in range(n)]
 
 
 def run_shard(shard, acc):
+    for s in range(shard.get('ov_base', 0), shard.get('ov_base', 0) + shard.get('ov_n', 0)):
+        judge_ov(make_ov_spec(s), acc)
     for s in range(shard['base'], shard['base'] + shard['n']):
         judge(make_spec(s), acc)
 
@@ -427,6 +786,9 @@ def run_case(case, acc):
     import openmdao.api as om
     from omv.checks.c17_recording_faithful import execute, runtime_vars, expected_name
     spec = case['spec']
+    if spec.get('stratum') == 'override':
+        judge_ov(spec, acc)
+        return
     if 'pick' not in case:
         judge(spec, acc)
         return
